@@ -82,19 +82,40 @@ pub fn serve_tls(listener: std::net::TcpListener, clear: Vec<Step>, tls: Vec<Ste
     out
 }
 
+/// flags: `<add root 0|1|2><store none><accept invalid certs><accept invalid hostnames>[<platform trusts the test CA>]`
+/// (add root 2 = a root that signed nothing; the fifth flag points OpenSSL's default verify file at the test CA while
+/// the connector is built)
 fn tls_params(flags: &str) -> Option<TlsParameters> {
-    let b: Vec<bool> = flags.chars().map(|c| c == '1').collect();
-    let (add_root, store_none, aic, aih) = (*b.first()?, *b.get(1)?, *b.get(2)?, *b.get(3)?);
+    let c: Vec<char> = flags.chars().collect();
+    let b: Vec<bool> = c.iter().map(|c| *c == '1').collect();
+    let (store_none, aic, aih) = (*b.get(1)?, *b.get(2)?, *b.get(3)?);
+    let platform = b.get(4).copied().unwrap_or(false);
     let mut builder = TlsParameters::builder("smtp.example.test".into());
     if store_none {
         builder = builder.certificate_store(CertificateStore::None);
     }
-    if add_root {
-        let ca = std::fs::read(format!("{FIX}/ca.pem")).ok()?;
-        builder = builder.add_root_certificate(Certificate::from_pem(&ca).ok()?);
+    match c.first()? {
+        '1' => {
+            let ca = std::fs::read(format!("{FIX}/ca.pem")).ok()?;
+            builder = builder.add_root_certificate(Certificate::from_pem(&ca).ok()?);
+        }
+        '2' => {
+            let ca = std::fs::read(format!("{FIX}/ca2.pem")).ok()?;
+            builder = builder.add_root_certificate(Certificate::from_pem(&ca).ok()?);
+        }
+        _ => {}
     }
     builder = builder.dangerous_accept_invalid_certs(aic).dangerous_accept_invalid_hostnames(aih);
-    builder.build_native().ok()
+    let saved = std::env::var_os("SSL_CERT_FILE");
+    if platform {
+        std::env::set_var("SSL_CERT_FILE", format!("{FIX}/ca.pem"));
+    }
+    let built = builder.build_native().ok();
+    match saved {
+        Some(v) => std::env::set_var("SSL_CERT_FILE", v),
+        None => std::env::remove_var("SSL_CERT_FILE"),
+    }
+    built
 }
 
 /// `tls <client s|a> <mode n|o|r|w> <cert g|w|s|e> <flags abcd> <mechs|-> <user> <pass> <msg> <clear script> <tls script>`
